@@ -338,6 +338,7 @@ def dim_keys(chk, tier, stack, prefix, uni, as_str):
     if stack == "Client":
         corpus += list(keyspace.class_keys(3, as_str))
     room = 250 - len(prefix)
+    corpus += [k for k in keyspace.boundary_keys(len(prefix), prefix)[:6] if isinstance(k, str) == as_str]
     corpus += list(keyspace.long_keys(as_str, keyspace.CLASS_BYTES, [room - 1, room, room + 1], 31))
     ops = SINGLE_KEY_OPS if stack != "HashClient" else ["set", "get", "delete", "incr", "touch", "cas"]
     for key in corpus:
